@@ -223,7 +223,12 @@ class DataCoordinate:
                 # This is not necessarily user error - it's a useful pattern
                 # to pass in all of the key-value pairs you have and let the
                 # code here pull out only what it needs.
-                return mapping.subset(dimensions.names)
+                try:
+                    return mapping.subset(dimensions.names)
+                except KeyError as err:
+                    raise DimensionNameError(
+                        f"No value in data ID ({mapping}) for required dimension {err}."
+                    ) from err
             new_mapping.update((name, mapping[name]) for name in mapping.dimensions.required)
             if mapping.hasFull():
                 new_mapping.update((name, mapping[name]) for name in mapping.dimensions.implied)
